@@ -122,6 +122,11 @@ pub fn build(mask: u32, network: u8, set_rank: usize) -> tir::Tx {
         tx.adhoc.push(adhoc("plutus_witness", vec![("version", tir::Expression::Number(2)), ("script", tir::Expression::Bytes(vec![0x4e, 0x4d, 0x01, 0x00, 0x00]))]));
     }
     if has(mask, "plutus-v3-witness") {
+        // (beside a native script also after a witness directive that names no language: such a directive attaches
+        // nothing, and must not shift the scripts of the directives after it)
+        if has(mask, "native-witness") {
+            tx.adhoc.push(adhoc("plutus_witness", vec![("script", tir::Expression::Bytes(vec![0x4e, 0x4d, 0x01, 0xEE, 0xEE]))]));
+        }
         tx.adhoc.push(adhoc("plutus_witness", vec![("version", tir::Expression::Number(3)), ("script", tir::Expression::Bytes(vec![0x46, 0x01, 0x01, 0x00]))]));
     }
     if has(mask, "native-witness") {
@@ -437,6 +442,31 @@ fn judge(mask: u32, config: u8, o: &mut Outcome) {
     };
     o.class("compiled");
     check_payload(&first.payload, &first.hash, &pp, o, &detail);
+    // the scripts attached: one per directive that names a language, under that language, with its own bytes
+    if let Ok(rec) = txdecode::decode_tx(&first.payload) {
+        let want = [0usize, has(mask, "plutus-v2-witness") as usize, has(mask, "plutus-v3-witness") as usize];
+        let wit = &first.payload[rec.witness_range.0..rec.witness_range.1];
+        let holds = |needle: &[u8]| wit.windows(needle.len()).any(|w| w == needle);
+        let mut wrong = vec![];
+        if rec.plutus_scripts != want {
+            wrong.push(format!("plutus scripts per language {:?}, the template attaches {:?}", rec.plutus_scripts, want));
+        }
+        if has(mask, "plutus-v3-witness") && !holds(&[0x44, 0x46, 0x01, 0x01, 0x00]) {
+            wrong.push("the v3 script's bytes are not in the witness set".into());
+        }
+        if has(mask, "plutus-v2-witness") && !holds(&[0x45, 0x4e, 0x4d, 0x01, 0x00, 0x00]) {
+            wrong.push("the v2 script's bytes are not in the witness set".into());
+        }
+        if holds(&[0x4e, 0x4d, 0x01, 0xEE, 0xEE]) {
+            wrong.push("the script of a directive that names no language is in the witness set".into());
+        }
+        if rec.native_scripts != has(mask, "native-witness") as usize {
+            wrong.push(format!("{} native scripts, the template attaches {}", rec.native_scripts, has(mask, "native-witness") as usize));
+        }
+        for w in wrong {
+            o.violate(Violation::new("witness-scripts|differ-from-the-template", w).with_detail(detail.clone()));
+        }
+    }
     // the validity interval: present exactly as written, a bound of 0 included
     if let Ok(rec) = txdecode::decode_tx(&first.payload) {
         let want = if has(mask, "validity") {
